@@ -618,6 +618,6 @@ var demoteProp = pbt.Prop[DemotePlan]{ID: "C07", Name: "lease-loss", Gen: genDem
 
 func TestProp_lease_loss(t *testing.T) { demoteProp.Check(t) }
 
-func TestReplay(t *testing.T) { pbt.Replay(t, replicaProp, demoteProp, sqlReplicaProp) }
+func TestReplay(t *testing.T) { pbt.Replay(t, replicaProp, demoteProp, sqlReplicaProp, importWaitProp) }
 
 var _ = context.Background
